@@ -232,7 +232,8 @@ namespace RecInt
         if (b.isPositive()) {
             inv_mod(a.Value, b.Value, c.Value);
         } else {
-            ruint<K> otherb(c.Value); sub(otherb, (-b).Value); // c - (-b) = c+b
+            ruint<K> otherb; mod_n(otherb, (-b).Value, c.Value); // (-b) mod c
+            if (otherb != 0) sub(otherb, c.Value, otherb); // c - ((-b) mod c) = b mod c
             inv_mod(a.Value, otherb, c.Value);
         }
         return a;
